@@ -149,6 +149,13 @@ template <class U> static inline U src_value(unsigned f, int j, int dc) {
 		double v = (double)m + frac;
 		return (U)(neg ? -v : v);
 	}
+	// filling 7, wide integer source, floating destination: values above 2^25 whose low bits do not survive the conversion to float
+	// (2^25 + 3 + j (2^26 + 16): the dropped bits are 011 / 10011 ...), so that the *rounding* of an integer-to-float constructor is
+	// exercised, not only the placement of its arguments; the oracle stays static_cast<T>(value)
+	if (f == 7 && dc == DC_FLOAT && sizeof(U) >= 4 && !std::is_floating_point<U>::value) {
+		long long w = (1LL << 25) + 3 + (long long)j * ((1LL << 26) + 16);
+		return (U)(neg ? -w : w);
+	}
 	return (U)(neg ? -m : m);
 }
 
